@@ -775,52 +775,64 @@ SH5_C14 = {"Geodesic.circle_parameters", "Segment.circle_parameters",
            "Horosphere.ref_coords"}
 
 
-def rule_sh5(ctx, only=None):
+def _run_object_table(ctx, rid, it, table, home_rel, only=None):
+    """Interpret every (label, object spec, method, args, kwargs, expected)
+    row on abstract objects for all outer shapes of the tier; one
+    obligation per row.  A construct the interpreter cannot follow leaves
+    that row unjudged (NOTE) without hiding the other rows."""
     from ..shape import AObj, AttributeErrorSim, RaiseSim
     import os
     r = ctx.r
-    r.rule("SH5", "methods of the hyperbolic objects interpreted end to end "
-                  "on abstract objects (data known by symbolic shape, "
-                  "constructors modelled, run-time validity guards assumed "
-                  "to pass): for composite shapes of every rank the result "
-                  "has the composite axes of the object followed by the "
-                  "documented unit shape (coordinates: n-1 or n; centre, "
-                  "radius, angle pair; ...)")
-    core = ctx.p.module_by_rel(CORE)
-    hyp = ctx.p.module_by_rel(HYP)
-    proj = ctx.p.module_by_rel(PROJ_REL)
-    it = Interp(hyp.tree, extra_trees=(("utils", core.tree),
-                                       ("projective", proj.tree)))
-    it.project = ctx.p
-    it.rel_prefix = {HYP: "", CORE: "utils", PROJ_REL: "projective"}
-    it.ctor_model = _hyp_ctor
     debug = os.environ.get("SA_SH5_DEBUG")
     outers = _outer_shapes(ctx.tier)
     total = 0
-    for label, spec, meth, args, kw, want in _sh5_table():
+    for label, spec, meth, args, kw, want in table:
         cname = spec["cls"]
         if only is not None and f"{cname}.{meth}" not in only:
             continue
-        cls = ctx.p.get_class(HYP, cname)
-        f = ctx.p.find_method(cls, meth)
-        if f is None:
-            raise AnalysisError(f"anchor method {cname}.{meth} has vanished")
+        if cname is None:
+            cls = None
+            f = ctx.p.get_function(home_rel, meth)
+        else:
+            cls = ctx.p.get_class(spec.get("rel", home_rel), cname)
+            f = ctx.p.find_method(cls, meth)
+            if f is None:
+                raise AnalysisError(
+                    f"anchor method {cname}.{meth} has vanished")
+        it.owner.setdefault(id(f.node), it._prefix_of(f.module.rel))
         r.analysed(f)
         bad = []
+        unsupported = None
         for O in outers:
             total += 1
 
             def mk(sp=spec, c=cls):
-                return AObj(c, proj=AArr(O + sp["proj"]),
-                            aux=AArr(O + sp["aux"]) if "aux" in sp
+                Oo = sp.get("outer", O)
+                return AObj(c, proj=AArr(Oo + sp["proj"]),
+                            aux=AArr(Oo + sp["aux"]) if "aux" in sp
+                            else None,
+                            dual=AArr(Oo + sp["dual"]) if "dual" in sp
                             else None, unit_ndims=sp["und"],
-                            aux_ndims=sp.get("aund", 0))
-            a = [mk() if x == "@same" else AArr(O) if x == "@outer" else
-                 mk(x, ctx.p.get_class(HYP, x["cls"])) if isinstance(x, dict)
-                 else x for x in args]
+                            aux_ndims=sp.get("aund", 0),
+                            dual_ndims=sp.get("dund", 0))
+
+            def arg(x):
+                if x == "@same":
+                    return mk()
+                if x == "@outer":
+                    return AArr(O)
+                if isinstance(x, dict) and "arr" in x:
+                    return AArr(O + x["arr"])
+                if isinstance(x, dict):
+                    return mk(x, ctx.p.get_class(x.get("rel", home_rel),
+                                                 x["cls"]))
+                return x
+            a = [arg(x) for x in args]
             try:
-                got = it.call_node(f.node, ([] if spec.get("static")
-                                            else [mk()]) + a, dict(kw))
+                got = it.call_node(
+                    f.node, ([] if spec.get("static") or cls is None
+                             else [mk()]) + a,
+                    {k: arg(v) for k, v in kw.items()})
                 w = want(O)
                 if w and w[0] == "obj":
                     gs = got.proj_data.shape if isinstance(got, AObj) \
@@ -850,21 +862,186 @@ def rule_sh5(ctx, only=None):
                                "valid object"))
             except Unsupported as e:
                 if debug:
-                    print("SH5 unsupported", label, O, e)
-                raise
-        inst = f"SH5:{label}"
+                    print(rid, "unsupported", label, O, e)
+                unsupported = (O, str(e))
+                break
+        inst = f"{rid}:{label}"
         if debug:
-            print("SH5", label, "bad" if bad else "ok", bad[:1])
-        if not bad:
-            r.ok("SH5", inst, loc(f, f.node), "",
+            print(rid, label, "unsupported" if unsupported else
+                  "bad" if bad else "ok", bad[:1])
+        if unsupported is not None and not bad:
+            r.note(rid, loc(f, f.node), label,
+                   f"not judged: the interpreter cannot follow this method "
+                   f"for outer shape {unsupported[0]} ({unsupported[1]})")
+            r.gap(f"rule_{rid.lower()}", f"{label}: {unsupported[1]}",
+                  fatal=False)
+        elif not bad:
+            r.ok(rid, inst, loc(f, f.node), "",
                  f"{len(outers)} composite shapes: documented result shape")
         else:
             O, why = bad[0]
             r.violation(
-                "SH5", f"{f.fq}|{label}", loc(f, f.node), label,
+                rid, f"{f.fq}|{label}", loc(f, f.node), label,
                 f"{len(bad)} of {len(outers)} composite shapes fail; first: "
                 f"outer shape {O}: {why}. For an array of objects the "
                 "result is not the per-object result at each index",
                 instance=inst)
-    r.extra["SH5_evaluations"] = total
+    r.extra[f"{rid}_evaluations"] = total
     return total
+
+
+def rule_sh5(ctx, only=None):
+    r = ctx.r
+    r.rule("SH5", "methods of the hyperbolic objects interpreted end to end "
+                  "on abstract objects (data known by symbolic shape, "
+                  "constructors modelled, run-time validity guards assumed "
+                  "to pass): for composite shapes of every rank the result "
+                  "has the composite axes of the object followed by the "
+                  "documented unit shape (coordinates: n-1 or n; centre, "
+                  "radius, angle pair; ...)")
+    core = ctx.p.module_by_rel(CORE)
+    hyp = ctx.p.module_by_rel(HYP)
+    proj = ctx.p.module_by_rel(PROJ_REL)
+    it = Interp(hyp.tree, extra_trees=(("utils", core.tree),
+                                       ("projective", proj.tree)))
+    it.project = ctx.p
+    it.rel_prefix = {HYP: "", CORE: "utils", PROJ_REL: "projective"}
+    it.ctor_model = _hyp_ctor
+    return _run_object_table(ctx, "SH5", it, _sh5_table(), HYP, only)
+
+
+# ---------------------------------------------------------------------------
+# SH6: CP^1 points, disks and Moebius maps interpreted end to end
+
+CP1 = "geometry_tools/complex_projective.py"
+
+
+def _cp1_ctor(it, cls, args, kw):
+    """Constructor model for complex_projective (and the projective classes
+    it uses): the data array is kept, `coords=` decides how a CP1Point's
+    array is read."""
+    from ..shape import AObj
+    if not args:
+        raise Unsupported(f"constructor {cls.name} without data")
+    a0 = args[0]
+    name = cls.name
+    unit = {"CP1Point": 1, "Point": 1, "CP1Disk": 2, "Transformation": 2,
+            "CP1Object": None, "ProjectiveObject": None}.get(name, "?")
+    if unit == "?":
+        raise Unsupported(f"constructor {name}")
+    if unit is None:
+        unit = kw.get("unit_ndims", 1)
+    if isinstance(a0, AObj):
+        o = a0.clone()
+        o.cls = cls
+        o.unit_ndims = unit
+        return o
+    if not isinstance(a0, AArr):
+        raise Unsupported(f"constructor {name} of {a0!r}")
+    sh = a0.shape
+    if name == "CP1Point":
+        coords = kw.get("coords", args[1] if len(args) > 1 else "projective")
+        if coords == "cx_affine":
+            sh = sh + (2,)
+        elif coords == "real_affine":
+            if not sh or sh[-1] != 2:
+                raise ShapeError(f"real affine coordinates of shape {sh}")
+        elif coords == "spherical":
+            if not sh or sh[-1] != 3:
+                raise ShapeError(f"spherical coordinates of shape {sh}")
+            sh = sh[:-1] + (2,)
+        elif coords != "projective":
+            raise Unsupported(f"coords={coords!r}")
+    if name == "CP1Disk" and len(args) > 1 and args[1] is not None:
+        raise Unsupported("CP1Disk(center, radius) inside interpreted code")
+    if name == "Transformation":
+        if kw.get("column_vectors") or (len(args) > 1 and args[1] is True):
+            sh = sh[:-2] + (sh[-1], sh[-2])
+        if len(sh) < 2 or sh[-1] != sh[-2]:
+            raise ShapeError(f"Transformation built from an array of shape "
+                             f"{sh}")
+    if len(sh) < unit:
+        raise ShapeError(f"{name} built from an array of shape {sh}: fewer "
+                         f"than its {unit} unit axes")
+    return AObj(cls, proj=AArr(sh), unit_ndims=unit)
+
+
+def _flat(O):
+    if not O:
+        return 1
+    if len(O) == 1:
+        return O[0]
+    if all(isinstance(x, int) for x in O):
+        d = 1
+        for x in O:
+            d *= x
+        return d
+    return "*".join(str(x) for x in O)
+
+
+def _sh6_table():
+    disk = dict(cls="CP1Disk", proj=(4, 2), und=2)
+    pt = dict(cls="CP1Point", proj=(2,), und=1)
+    tri = dict(cls="CP1Point", proj=(3, 2), und=1)
+    t = [
+        ("CP1Disk.boundary_points", disk, "boundary_points", [], {},
+         lambda O: ("obj", O + (3, 2))),
+        ("CP1Disk.interior_point", disk, "interior_point", [], {},
+         lambda O: ("obj", O + (2,))),
+        ("CP1Disk.circle_parameters", disk, "circle_parameters", [], {},
+         lambda O: (O + (2,), O)),
+        ("CP1Disk.center_inside", disk, "center_inside", [], {},
+         lambda O: O),
+        ("CP1Disk.fs_diameter", disk, "fs_diameter", [], {}, lambda O: O),
+        ("CP1Disk.fs_center", disk, "fs_center", [], {},
+         lambda O: ("obj", O + (2,))),
+        ("CP1Disk.inversion", disk, "inversion", [], {},
+         lambda O: ("obj", O + (2, 2))),
+        ("CP1Disk.complement", disk, "complement", [], {},
+         lambda O: ("obj", O + (4, 2))),
+        ("CP1Disk.contains[elementwise]", disk, "contains", ["@same"], {},
+         lambda O: O),
+        ("CP1Disk.intersects[elementwise]", disk, "intersects", ["@same"],
+         {}, lambda O: O),
+        ("CP1Disk.contains[pairwise]", disk, "contains",
+         [dict(cls="CP1Disk", proj=(4, 2), und=2, outer=("M1",))],
+         {"broadcast": "pairwise"}, lambda O: (_flat(O), "M1")),
+        ("CP1Disk.intersects[pairwise]", disk, "intersects",
+         [dict(cls="CP1Disk", proj=(4, 2), und=2, outer=("M1",))],
+         {"broadcast": "pairwise"}, lambda O: (_flat(O), "M1")),
+        ("CP1Point.spherical_coords", pt, "spherical_coords", [], {},
+         lambda O: O + (3,)),
+        ("CP1Point.real_affine_coords", pt, "real_affine_coords", [], {},
+         lambda O: O + (2,)),
+        ("CP1Point.to_standard_triple", tri, "to_standard_triple", [], {},
+         lambda O: ("obj", O + (2, 2))),
+        ("CP1Disk._compute_proj_data[affine]", disk, "_compute_proj_data",
+         [pt, "@outer"], {"radius_metric": "affine"},
+         lambda O: O + (4, 2)),
+        ("CP1Disk._compute_proj_data[fs]", disk, "_compute_proj_data",
+         [pt, "@outer"], {"radius_metric": "fs"}, lambda O: O + (4, 2)),
+        ("projective_to_spherical", dict(cls=None), "projective_to_spherical",
+         [dict(arr=(2,))], {}, lambda O: O + (3,)),
+        ("spherical_to_projective", dict(cls=None), "spherical_to_projective",
+         [dict(arr=(3,))], {}, lambda O: O + (2,)),
+    ]
+    return t
+
+
+def rule_sh6(ctx, only=None):
+    r = ctx.r
+    r.rule("SH6", "methods of CP1Point / CP1Disk and the spherical <-> "
+                  "homogeneous coordinate maps interpreted end to end on "
+                  "abstract objects: for a single object and for arrays of "
+                  "objects of every rank the result has the composite axes "
+                  "of the object followed by the documented unit shape "
+                  "(and no item assignment lands on a NumPy scalar)")
+    core = ctx.p.module_by_rel(CORE)
+    cp1 = ctx.p.module_by_rel(CP1)
+    proj = ctx.p.module_by_rel(PROJ_REL)
+    it = Interp(cp1.tree, extra_trees=(("utils", core.tree),
+                                       ("projective", proj.tree)))
+    it.project = ctx.p
+    it.rel_prefix = {CP1: "", CORE: "utils", PROJ_REL: "projective"}
+    it.ctor_model = _cp1_ctor
+    return _run_object_table(ctx, "SH6", it, _sh6_table(), CP1, only)
